@@ -69,7 +69,9 @@ def run(rep, tier, seed, replay):
                        "is the comparison of H(store) with the torrent's digest), mmap write-through of chunks to the files, "
                        "Delegator / ChunkSelector choice of what to request (Insert events are free, only Block::insert's refusals are "
                        "enforced), RequestList bucket order (whether a PIECE matches a live or a stale request is an input of the event), "
-                       "choke_queue, timers, peers' failed counters (disconnects are events)",
+                       "choke_queue, timers; WHICH peers a verdict blames (mark_failed_peers / mark_and_disconnect_if_single_peer) is not modelled: "
+                       "receive_corrupt_chunk calls are events reconstructed from the observed PeerInfo::failed_counter, their effect "
+                       "(count, erase the connection above max_failed, refuse the peer afterwards) is modelled and compared",
                        "property oracle evaluated in harness/c01.cc on the implementation after every stimulus and inside the "
                        "chunk-done slot; classification in props/c01.py"]))
     impl = ltv.build_harness("c01", ["c01.cc", "common/session.cc"])
@@ -141,7 +143,8 @@ def run(rep, tier, seed, replay):
     stats.update(totals=tot, traces_checked_by_model=len(mo), traces_rejected=rejected)
     rep.cov.update(evaluations=len(cases), distinct_nontrivial=len(nontrivial),
                    rule="cases = corpus + hand list (dissimilar / leader change / leader disconnect / all-corrupt / max_failed / "
-                        "malformed / unrequested / choke / out of order) + dissimilar position sweep + random scripts over 8 layouts, "
+                        "malformed / unrequested / choke / out of order / crafted data whose SHA-1 agrees with the recorded one up to an early NUL byte / "
+                        "stale longer files already in the download directory) + dissimilar position sweep + random scripts over 8 layouts, "
                         "1..4 peers, 8 read segmentations; non-trivial = distinct case in which a block was written and at least one "
                         "hash verdict was delivered",
                    samples=samples, input_distribution=stats, mismatches=rejected, exhaustive=False)
